@@ -37,18 +37,23 @@ def mc_cfg(max_list, groups, invariant="NoStale", flags=None):
     return ("SPECIFICATION Spec\nCONSTANTS\n" + MC_CONSTANTS +
             f"  MaxList = {max_list}\n  JFN = {f['JFN']}\n  CANON = {f['CANON']}\n"
             f"  Groups = {'TRUE' if groups else 'FALSE'}\n  CheckUpdates = {f.get('CheckUpdates', 'TRUE')}\n"
+            f"  CheckGraph = {f.get('CheckGraph', 'FALSE')}\n"
             f"SYMMETRY Symm\nINVARIANT {invariant}\n")
 
 
-def run_model_check(out, wd, tier):
-    res = tlc.run_tlc(wd, "MC_Update", mc_cfg(1 if tier == "quick" else 2, False), workers=16,
-                      timeout=600 if tier == "quick" else 3600)
+def run_model_check(out, wd, tier, graph=False):
+    """NoStale (and, with graph=True, GraphFresh: after every update the recorded graph lists no superseded value object)"""
+    cfg = mc_cfg(1 if tier == "quick" else 2, False, flags={"CheckGraph": "TRUE" if graph else "FALSE"})
+    if graph:
+        cfg += "INVARIANT GraphFresh\n"
+    res = tlc.run_tlc(wd, "MC_Update", cfg, workers=16, timeout=900 if tier == "quick" else 7200)
     tlc.require_clean(res, "MC_Update")
-    out.add_tlc(res, "MC_Update: every topology x every single edit, MaxList=%d" % (1 if tier == "quick" else 2),
-                exhaustive=res.completed)
+    out.add_tlc(res, "MC_Update: every topology x every single edit, MaxList=%d, invariants NoStale%s"
+                % (1 if tier == "quick" else 2, " + GraphFresh" if graph else ""), exhaustive=res.completed)
     if res.error:
-        out.violation("model:NoStale", {"what": "the modelled chain algorithm leaves a slot stale",
-                                        "tlc_output_tail": res.out[-6000:]})
+        out.violation("model:" + ("GraphFresh" if "GraphFresh" in res.out else "NoStale"),
+                      {"what": "the modelled chain algorithm leaves a slot stale, or a value listing a superseded ancestor",
+                       "tlc_output_tail": res.out[-6000:]})
     return res
 
 
